@@ -126,7 +126,7 @@ def run(ctx):
     common.build_and_audit(ctx, PROP_MODS)
     rng = ctx.rng
     n_hist = 1500 if ctx.thorough else 300
-    fresh_cache = fresh_process_outcomes(sorted(set(PROBES + POOL_OK + POOL_BAD)))
+    fresh_cache = fresh_process_outcomes(sorted(set(PROBES + POOL_OK + POOL_BAD + ["name eq 'x';", "price lt 10 and ~flag", "a eq 1 #", "a eq 1 and b eq 2 ½", "contains(a, 'x') $", "x/any(t: t eq 1) ;", "a in (1, 2) ~", "not a ½ b"])))
     cases = []
     for h in range(n_hist):
         hist = [rng.choice(POOL_OK if rng.random() < 0.55 else POOL_BAD) for _ in range(rng.randint(1, 8))]
@@ -145,6 +145,13 @@ def run(ctx):
     for hp in lam_poison:
         for pr in lam_probe:
             cases.append(((hp,), pr, "shared-both")); cases.append(((hp, hp), pr, "shared-parser"))
+    # the SAME failing text twice (and three times, and with a valid text in between) on one lexer / one parser / both: a text that failed once must fail the same way again
+    # (token streams, positions or partial results remembered per text); tokenising errors directly after a complete expression are the sharpest case
+    TRAIL = ["name eq 'x';", "price lt 10 and ~flag", "a eq 1 #", "a eq 1 and b eq 2 ½", "contains(a, 'x') $", "x/any(t: t eq 1) ;", "a in (1, 2) ~", "not a ½ b"]
+    for bad in POOL_BAD + TRAIL:
+        for mode in ("shared-both", "shared-lexer", "shared-parser"):
+            cases.append(((bad,), bad, mode))
+        cases.append(((bad, bad), bad, "shared-both")); cases.append(((bad, "a eq 1"), bad, "shared-both")); cases.append(((bad, "a eq 1", bad), "a eq 1", "shared-lexer"))
     # accumulation: long runs of ONE kind of input (state that only builds up — counters, caches, stacks — needs many steps of the same kind), and
     # single extreme inputs (deep nesting, long chains), each followed by probes that use parentheses, calls, lists and lambdas
     OPEN = ["(a eq", "f.g(", "((a", "x/any(t: t eq", "(½", "a in (1, (2", "not (a eq 1", "concat(a, (b", "x/any(t: t/y/all(u: (u eq"]
